@@ -13,7 +13,7 @@ __attribute__((noinline)) void e_save(ProgramOptions* o, std::string* fname) { o
 }
 static std::vector<std::string> scenario_args(int sc, const std::string& wd) {
     std::vector<std::string> a{"inovesa"};
-    auto cfg = wd + "/parent.cfg";
+    auto cfg = wd + "/parent-" + std::to_string(sc) + "-" + std::to_string(getpid()) + ".cfg";      // one file per scenario and process: snapshots and native oracles of several scenarios run in parallel
     switch (sc) {
     case 0: a.insert(a.end(), {"--gui", "false", "-o", wd + "/out.h5"}); break;                                     // defaults only
     case 1: a.insert(a.end(), {"--gui", "false", "-o", wd + "/out.h5", "-I", "1.2345678e-3", "2.5e-3", "6.7891234e-4", "-f", "8500.5", "-N", "777", "-V", "1234567", "-F", "2712345.5", "-H", "184", "-E", "1.2345678e9",
@@ -88,7 +88,7 @@ int main(int argc, char** argv) {
         ReplayIn in; if (!in.load(argv[2])) return 2;
         int sc = in.i("scenario"); std::string wd = in.kv["workdir"][0];
         ProgramOptions a; if (!parse(a, scenario_args(sc, wd))) return 4;
-        std::string saved = wd + "/saved-native.cfg"; a.save(saved);
+        std::string saved = wd + "/saved-native-" + std::to_string(getpid()) + ".cfg"; a.save(saved);
         ProgramOptions b; if (!parse(b, {"inovesa", "--gui", "false", "-c", saved})) return 5;
         FILE* fo = fopen(argv[3], "w"); std::string ga = getters(a), gb = getters(b);
         fprintf(fo, "same 1 %d\n", ga == gb ? 1 : 0); fclose(fo);
